@@ -34,3 +34,9 @@ CHECKS["C15"] = dict(
     technique="Verus contracts on extracted planner/matcher text",
     design_ref="DESIGN.md §3 C15",
 )
+CHECKS["C05"] = dict(
+    text="Unbounded Verus proof on the extracted bodies of CopiaSync::patch, AsyncCopiaSync::patch (async erased), Delta::validate and Delta::push_*: for every delta and basis, Ok with verification on implies BLAKE3(bytes written) == delta.checksum; bytes are read only from inside the basis content; no panic (every debug_assert is an obligation).",
+    note="Trusted: Verus+Z3, extractor rules (R2, R4 async erasure, R7 ghost sink), std::io/tokio traits by ghost-view contracts, blake3 by contract (H a function; incremental == one-shot), iterator-sum helpers assumed. Output length < 2^64.",
+    technique="Verus contracts + loop invariant on extracted patch/validate text; ghost sink for the writer",
+    design_ref="DESIGN.md §3 C05",
+)
